@@ -5,6 +5,10 @@ From Coq Require Import ZArith List Arith Lia Bool Permutation.
 From FF Require Import Model.Tensor Spec.Kron Proofs.TensorIdx Proofs.TensorOrder Proofs.TensorKron.
 Import ListNotations.
 
+Section Generic.
+Context {T : Type} {EN : Entry T} {EL : EntryLaws T}.
+Local Notation arr := (garr T).
+
 Lemma wf_kunit r : wf r (kunit r).
 Proof.
   unfold wf, kunit. cbn [shp dat]. rewrite repeat_length. split; auto.
@@ -14,7 +18,7 @@ Qed.
 Lemma tabulate_aget r X : wf r X -> tabulate (shp X) (aget X) = X.
 Proof.
   intros [H1 H2]. destruct X as [s d]. unfold tabulate, aget. cbn [shp dat] in *. f_equal.
-  rewrite <- (map_map (ravel s) (fun k => nth k d 0%Z)), ravel_indices, <- H2.
+  rewrite <- (map_map (ravel s) (fun k => nth k d ezero)), ravel_indices, <- H2.
   clear. induction d as [|x d IH]; simpl; auto. f_equal. rewrite <- seq_shift, map_map. exact IH.
 Qed.
 
@@ -23,7 +27,7 @@ Proof. induction s; simpl; auto. rewrite IHs. f_equal. lia. Qed.
 Lemma map2_mul_ones_r s : map2 Nat.mul s (repeat 1 (length s)) = s.
 Proof. induction s; simpl; auto. rewrite IHs. f_equal. lia. Qed.
 
-Lemma aget_kunit r idx : inb idx (repeat 1 r) -> aget (kunit r) idx = 1%Z.
+Lemma aget_kunit r idx : inb idx (repeat 1 r) -> aget (kunit r) idx = eone.
 Proof.
   intros H. unfold aget, kunit. cbn [shp dat].
   pose proof (ravel_bound _ _ H) as Hb.
@@ -41,7 +45,7 @@ Proof.
   { rewrite repeat_length. auto. }
   { rewrite map2_mul_ones. auto. }
   fold (kunit (length (shp X))). rewrite aget_kunit by auto.
-  replace (map2 Nat.modulo idx (shp X)) with idx; [lia|].
+  replace (map2 Nat.modulo idx (shp X)) with idx; [apply emul_1_l|].
   clear -Hidx. induction Hidx; simpl; auto. rewrite <- IHHidx. f_equal. symmetry. apply Nat.mod_small. auto.
 Qed.
 Lemma kron2_unit_r r X : wf r X -> kron2 X (kunit r) = X.
@@ -57,7 +61,7 @@ Proof.
   { apply inb_length in Hidx. revert Hidx. generalize (shp X). clear. induction idx as [|i idx IH]; intros [|d s] H; simpl in *; try discriminate; constructor.
     - first [lia | apply Nat.mod_upper_bound; lia].
     - apply IH. lia. }
-  rewrite E1. fold (kunit (length (shp X))). rewrite aget_kunit by auto. lia.
+  rewrite E1. fold (kunit (length (shp X))). rewrite aget_kunit by auto. apply emul_1_r.
 Qed.
 
 (* chains with the unit in front *)
@@ -128,7 +132,8 @@ Proof.
   destruct (inb_divmod (map2 Nat.mul (shp X) (shp ins)) (shp Y) idx) as [J1 J2]; auto.
   { rewrite map2_length; lia. }
   unfold kron2. rewrite !aget_tabulate by auto. cbn [shp].
-  rewrite I2, I3, I4. ring.
+  rewrite I2, I3, I4.
+  rewrite emul_assoc. f_equal. apply emul_comm.
 Qed.
 
 (* inserting into a chain: only the products of the dimensions in front of / behind the insertion point
@@ -143,3 +148,4 @@ Proof.
   - rewrite chain_u_snoc. reflexivity.
   - apply Forall_app. split; auto.
 Qed.
+End Generic.
